@@ -3,20 +3,20 @@
 # (suite passes with it, demo fails with it, demo passes without it), then runs the given checks against it.
 export GOFLAGS=-mod=mod GOPROXY=off GOSUMDB=off GOTOOLCHAIN=local
 id=$1; shift
-wt=/tmp/mut/$id
+base=${MUTBASE:-/tmp/mut}; wt=$base/$id
 lid=$(echo $id | tr A-Z a-z)
 cd $wt || exit 2
 echo "== $id: library files changed: $(git diff --stat -- . ":!demo_$lid" | tail -1)"
 pk=$(go list ./... 2>/dev/null | grep -v "demo_")
-if go test -vet=off -count=1 $pk >/tmp/mut/$id.suite.log 2>&1; then echo "suite with change: PASS"; else echo "suite with change: FAIL"; tail -5 /tmp/mut/$id.suite.log; fi
+if go test -vet=off -count=1 $pk >$base/$id.suite.log 2>&1; then echo "suite with change: PASS"; else echo "suite with change: FAIL"; tail -5 $base/$id.suite.log; fi
 rundemo() {
-  if [ -x demo_$lid/run.sh ] || [ -f demo_$lid/run.sh ]; then (cd $wt && bash demo_$lid/run.sh) >/tmp/mut/$id.demo.log 2>&1; else go test -vet=off -count=1 ./demo_$lid/ >/tmp/mut/$id.demo.log 2>&1; fi
+  if [ -x demo_$lid/run.sh ] || [ -f demo_$lid/run.sh ]; then (cd $wt && bash demo_$lid/run.sh) >$base/$id.demo.log 2>&1; else go test -vet=off -count=1 ./demo_$lid/ >$base/$id.demo.log 2>&1; fi
 }
 rundemo; echo "demo with change: exit $?"
-git diff -- . ":!demo_$lid" > /tmp/mut/$id.lib.patch
-git apply -R /tmp/mut/$id.lib.patch
+git diff -- . ":!demo_$lid" > $base/$id.lib.patch
+git apply -R $base/$id.lib.patch
 rundemo; echo "demo without change: exit $?"
-git apply /tmp/mut/$id.lib.patch
+git apply $base/$id.lib.patch
 cd /verif
 for c in "$@"; do
   out=$(VERIF_REPO=$wt ./check $c quick 2>&1); rc=$?
